@@ -109,6 +109,25 @@ def _apply_dict_op(el, name, r):
     return "set", obj
 
 
+def _apply_member_op(el, a):
+    """a member removal / addition on a mapping AFTER its last set() (pop, del, clear, item assignment): legitimate
+    on a SparseDict, a TypeError/KeyError on other mappings or absent members — those are simply not applied.
+    None of them touches `.raw` or the declared fields."""
+    try:
+        if a["op"] == "pop":
+            el.pop(a["key"])
+        elif a["op"] == "del":
+            del el[a["key"]]
+        elif a["op"] == "clear":
+            el.clear()
+        elif a["op"] == "assign":
+            el[a["key"]] = a.get("value", "v")
+        else:
+            raise ValueError(a["op"])
+    except (TypeError, KeyError, NotImplementedError):
+        pass
+
+
 def build(case):
     """-> the element on the real flatland, after the recipe's whole history of set()/set_flat() calls.
     `b["history"]` lists earlier inputs (good, bad, garbage) applied before the recipe's final one; the element
@@ -189,6 +208,8 @@ def build(case):
             o, x = _apply_dict_op(el, b.get("name"), r)
             if o is not None:
                 op, obj = o, x
+        for a in b.get("after", []):
+            _apply_member_op(el, a)
         return tag(el, el, op, obj)
     raise ValueError(kind)
 
@@ -555,7 +576,9 @@ def documented(case, el):
         lo, hi = v.get("minimum", 1), v.get("maximum", 1)
         return lo <= n <= hi, ("exact" if lo == hi else "range", extra)
     if cls in ("SetWithKnownFields", "SetWithAllFields") and kind == "Dict":
-        # decided from the recipe's LAST set()/set_flat() alone — earlier inputs of the same element do not matter
+        # decided from the recipe's LAST set()/set_flat() alone — earlier inputs of the same element do not matter —
+        # against the DECLARED field names (b["fields"]): which members the mapping currently holds (b["after"]:
+        # pop / del / clear / item assignment on a SparseDict after the set) does not matter either
         ops = [o for o in b.get("history", []) + [b["raw"]] if o["t"] != "unset"]
         r = ops[-1] if ops else {"t": "unset"}
         if r["t"] in ("unset", "flat", "none"):
@@ -990,9 +1013,18 @@ def rand_dict_case(rng):
     else:
         raw = {"t": "dict", "pairs": [[k, "v"] for k in keys] + [[{"int": 1}, "v"]]}
     b = {"kind": "Dict", "name": rng.choice(["d", "form"]), "fields": fields, "raw": raw}
-    if rng.random() < 0.15:
+    if rng.random() < 0.3:
         b["sparse"] = True
+    if (b.get("sparse") and rng.random() < 0.65) or rng.random() < 0.05:
+        # members removed / added between the set() and the validator call (legitimate on a SparseDict)
+        pool = fields + [rng.choice(["a", "b", "c", "z", "q"])]
+        b["after"] = [rand_member_op(rng, pool) for _ in range(rng.randint(1, 3))]
     return {"v": {"cls": cls}, "build": b}
+
+
+def rand_member_op(rng, keys):
+    op = rng.choice(["pop", "del", "clear", "assign", "pop", "del"])
+    return {"op": "clear"} if op == "clear" else {"op": op, "key": rng.choice(keys)}
 
 
 EMAILS = ["a@b.c", "user@example.com", "user@localhost", "@example.com", "user@", "a@@b.c", "a b@example.com", " @example.com",
@@ -1302,7 +1334,7 @@ class C15(Property):
     rule = ("every validator class x random parameterisations x String/Integer/Boolean elements set with None / adapted / unadapted text / blank / never set, "
             "List/Array with 0-5 members, members with duplicates at random positions, Dicts set with dict / pairs / flat / non-iterable / malformed raw values, "
             "Float/Decimal elements (8% of cases: inf, nan, sNaN, 1e999, 1.5, 4111111111111111.0 …) against Luhn10, the value-bound validators, ValueIn, ValuesEqual, NotDuplicated; e-mail and URL shape pools plus random assembly, e-mail domains of mixed ASCII / non-ASCII labels steered to every side of 253 characters as text and in IDN form (incl. text <= 253 < IDN), optional local_part_pattern; 6% hostile stream (validator on an element kind it is not documented for, missing field path, "
-            "negative counts, None bounds, ValueIn with a str as container, illegal discard_parts names); 7% of cases override message attributes (incl. the empty text, plural triples), 4% of scalar elements get value/u assigned directly; Dicts are also set from one-shot iterators, generators and dict views, SparseDict 15%; NotDuplicated also on children of a Dict; 20% of cases start with pre-existing errors (incl. the very message).  non-trivial = the validator returned a verdict")
+            "negative counts, None bounds, ValueIn with a str as container, illegal discard_parts names); 7% of cases override message attributes (incl. the empty text, plural triples), 4% of scalar elements get value/u assigned directly; Dicts are also set from one-shot iterators, generators and dict views, SparseDict 30% — two thirds of them with 1-3 member operations (pop / del / clear / item assignment of declared and undeclared keys) between the set() and the validator call; NotDuplicated also on children of a Dict; 20% of cases start with pre-existing errors (incl. the very message).  non-trivial = the validator returned a verdict")
 
     def corpus(self):
         out = []
@@ -1346,6 +1378,15 @@ class C15(Property):
                 out.append({"v": {"cls": cls}, "build": {"kind": "Dict", "name": "d", "fields": ["x", "y"],
                                                         "history": [{"t": "dict", "pairs": [["x", "1"], ["z", "3"]]}],
                                                         "raw": {"t": "garbage", "g": g}}})
+        # seeded C15-setwithknown-checks-current-members: a SparseDict set() with allowed keys, a member dropped, then validated
+        for after in ([{"op": "pop", "key": "y"}], [{"op": "del", "key": "x"}], [{"op": "clear"}],
+                      [{"op": "pop", "key": "x"}, {"op": "assign", "key": "x"}]):
+            for cls in ("SetWithKnownFields", "SetWithAllFields"):
+                out.append({"v": {"cls": cls}, "build": {"kind": "Dict", "name": "point", "fields": ["x", "y"], "sparse": True,
+                                                        "raw": {"t": "dict", "pairs": [["x", "1"], ["y", "2"]]}, "after": after}})
+        out.append({"v": {"cls": "SetWithKnownFields"}, "build": {"kind": "Dict", "name": "point", "fields": ["x", "y"], "sparse": True,
+                                                                 "raw": {"t": "dict", "pairs": [["x", "1"], ["y", "2"], ["z", "3"]]},
+                                                                 "after": [{"op": "pop", "key": "x"}]}})
         # fixed fe503f0 (audit rev3a C15-1): set() from a one-shot iterator / generator
         for t, pairs in (("iter", [["a", "1"], ["b", "2"]]), ("iter", [["a", "1"], ["b", "2"], ["z", "3"]]), ("gen", [["a", "1"], ["b", "2"]])):
             for cls in ("SetWithAllFields", "SetWithKnownFields"):
@@ -1409,6 +1450,16 @@ class C15(Property):
                     ops = [copy.deepcopy(pool[i]) for i in seq]
                     yield finish({"v": {"cls": cls}, "build": {"kind": "Dict", "name": "d", "fields": flds,
                                                               "history": ops[:-1], "raw": ops[-1]}})
+        # SparseDict: every raw key set out of 4 x every sequence of 1-2 member operations out of 6, both validators
+        mops = [{"op": "pop", "key": "a"}, {"op": "pop", "key": "b"}, {"op": "del", "key": "a"}, {"op": "clear"},
+                {"op": "assign", "key": "b"}, {"op": "assign", "key": "a"}]
+        for keys in (["a", "b"], ["a"], ["a", "b", "z"], []):
+            for length in (1, 2):
+                for seq in itertools.product(range(len(mops)), repeat=length):
+                    for cls in ("SetWithKnownFields", "SetWithAllFields"):
+                        yield finish({"v": {"cls": cls}, "build": {"kind": "Dict", "name": "d", "fields": flds, "sparse": True,
+                                                                  "raw": {"t": "dict", "pairs": [[k, "v"] for k in keys]},
+                                                                  "after": [copy.deepcopy(mops[i]) for i in seq]}})
         # Luhn: every number below 2000 (thorough: 20000)
         top = 20000 if tier == "thorough" else 2000
         for n in range(0, top):
@@ -1416,7 +1467,7 @@ class C15(Property):
 
     exhaustive_note = ("every comparison class at value = bound-1, bound, bound+1, None, unadapted; length classes at every length 0..6; "
                        "NotDuplicated with one duplicate at every pair of positions of a 4-member List/Array checked at every index; "
-                       "member counts 0..5 against every bound 0..4; SetWithKnownFields/SetWithAllFields after every sequence of 2 (thorough: also 3) inputs out of 11 kinds (complete / stray key / missing key / pairs / set_flat / None / five kinds of garbage); IsEmail on 1..32 international labels (text length vs IDN length around 253) and on 60/62/63/64-character ASCII labels; Luhn10 on every integer below 2000 (thorough: 20000)")
+                       "member counts 0..5 against every bound 0..4; SetWithKnownFields/SetWithAllFields on a SparseDict set with each of 4 key sets followed by every sequence of 1-2 member operations (pop / del / clear / item assignment) out of 6; SetWithKnownFields/SetWithAllFields after every sequence of 2 (thorough: also 3) inputs out of 11 kinds (complete / stray key / missing key / pairs / set_flat / None / five kinds of garbage); IsEmail on 1..32 international labels (text length vs IDN length around 253) and on 60/62/63/64-character ASCII labels; Luhn10 on every integer below 2000 (thorough: 20000)")
 
     def generate(self, rng, n, tier):
         for _ in range(n):
@@ -1499,6 +1550,12 @@ class C15(Property):
             t.append("hyp:messages_total=holds")
         if b.get("history"):
             t.append("history=%d" % len(b["history"]))
+        if b.get("sparse"):
+            t.append("sparse-dict")
+        if b.get("after"):
+            t.append("member-ops-after-set=%d" % len(b["after"]))
+            for a in b["after"]:
+                t.append("member-op=" + a["op"])
         if v["cls"] == "IsEmail":
             ec = email_class(view.get("value"))
             if ec:
@@ -1523,6 +1580,12 @@ class C15(Property):
         for i in range(len(b.get("history", []))):
             c = copy.deepcopy(case)
             del c["build"]["history"][i]
+            r = redo(c)
+            if r:
+                yield r
+        for i in range(len(b.get("after", []))):
+            c = copy.deepcopy(case)
+            del c["build"]["after"][i]
             r = redo(c)
             if r:
                 yield r
